@@ -1,6 +1,7 @@
 package world
 
 import (
+	"os"
 	"runtime"
 
 	"verif/internal/scen"
@@ -38,6 +39,8 @@ type sched struct {
 	turn      int
 	alive     [maxTasks]bool
 	nAlive    int
+	waiting   [maxTasks]uintptr // R5: the lock a task is blocked on (0 = runnable)
+	lockWaits int
 	yields    int
 	maxYields int
 	switches  int
@@ -146,6 +149,9 @@ func (w *W) runTasks() {
 	w.stats["sched.yields"] = s.yields
 	w.stats["sched.switches"] = s.switches
 	w.stats["sched.switches_in_log"] = s.inLogSw
+	if s.lockWaits > 0 {
+		w.stats["sched.lock_waits"] = s.lockWaits
+	}
 	w.stats["sched.hash_lo"] = int(s.schedHash & 0x7fffffff)
 	// export the consumed tape
 	out := make([]int, s.toutLen)
@@ -265,7 +271,7 @@ func (s *sched) yield(site int, inLog bool) {
 		return
 	}
 	me := s.cur
-	others := s.nAlive - 1
+	others := s.runnableOthers(me)
 	if others <= 0 {
 		return
 	}
@@ -292,7 +298,7 @@ func (s *sched) yield(site int, inLog bool) {
 	next := -1
 	k := 0
 	for i := 1; i <= s.n; i++ {
-		if i != me && s.alive[i] {
+		if i != me && s.alive[i] && s.waiting[i] == 0 {
 			k++
 			if k == v {
 				next = i
@@ -312,6 +318,71 @@ func (s *sched) yield(site int, inLog bool) {
 }
 
 //go:norace
+func (s *sched) runnableOthers(me int) int {
+	k := 0
+	for i := 1; i <= s.n; i++ {
+		if i != me && s.alive[i] && s.waiting[i] == 0 {
+			k++
+		}
+	}
+	return k
+}
+
+// blocked is called (through the R5 lock seam) by the running task when the lock it
+// wants is held by a parked task: the task is marked as waiting and another runnable
+// task is released. It returns true when the caller should try the lock again, false
+// when the scheduler cannot help (no tasks are running: setup/tail phases).
+//
+//go:norace
+func (s *sched) blocked(key uintptr) bool {
+	if s.n <= 1 || s.finished || s.cur <= 0 {
+		return false
+	}
+	me := s.cur
+	others := s.runnableOthers(me)
+	if others == 0 {
+		// every live task waits for a lock: a deadlock of the library under this schedule
+		s.deadlock(me, key)
+		return false
+	}
+	s.waiting[me] = key
+	s.lockWaits++
+	v := 1 + s.choose(others, false)
+	k := 0
+	for i := 1; i <= s.n; i++ {
+		if i != me && s.alive[i] && s.waiting[i] == 0 {
+			k++
+			if k == v {
+				s.switches++
+				s.release(i)
+				s.park(me)
+				return true
+			}
+		}
+	}
+	s.waiting[me] = 0
+	return true
+}
+
+//go:norace
+func (s *sched) lockReleased(key uintptr) {
+	if s.n <= 1 || s.finished {
+		return
+	}
+	for i := 1; i <= s.n; i++ {
+		if s.waiting[i] == key {
+			s.waiting[i] = 0
+		}
+	}
+}
+
+//go:norace
+func (s *sched) deadlock(me int, key uintptr) {
+	os.Stderr.WriteString("verif: DEADLOCK: every live task is blocked on a lock held by a parked or finished task\n")
+	s.w.deadlocked()
+}
+
+//go:norace
 func (s *sched) exit(me int) {
 	s.alive[me] = false
 	s.nAlive--
@@ -321,10 +392,16 @@ func (s *sched) exit(me int) {
 		close(s.done)
 		return
 	}
-	v := s.choose(s.nAlive, false)
+	run := s.runnableOthers(me)
+	if run == 0 {
+		// the finished task leaves only tasks that wait for a lock nobody will release
+		s.deadlock(me, 0)
+		return
+	}
+	v := s.choose(run, false)
 	k := 0
 	for i := 1; i <= s.n; i++ {
-		if s.alive[i] {
+		if s.alive[i] && s.waiting[i] == 0 {
 			if k == v {
 				s.release(i)
 				return
@@ -346,4 +423,30 @@ func (w *W) yield(site int) {
 		inLog = w.logDepth[t] > 0
 	}
 	s.yield(site, inLog)
+}
+
+// lockHook adapts the scheduler to the R5 seam.
+type lockHook struct{ w *W }
+
+func (h lockHook) Blocked(key uintptr) bool {
+	if s := h.w.sch; s != nil {
+		return s.blocked(key)
+	}
+	return false
+}
+
+func (h lockHook) Released(key uintptr) {
+	if s := h.w.sch; s != nil {
+		s.lockReleased(key)
+	}
+}
+
+// deadlocked ends the world: the event log so far is flushed, the process exits with a
+// status no scenario expects.
+func (w *W) deadlocked() {
+	if !w.quiet {
+		w.emit(scen.Event{T: w.task(), K: "deadlock", S: "every live task is blocked on a lock"})
+	}
+	w.out.Flush()
+	os.Exit(96)
 }
